@@ -87,9 +87,11 @@ PROP = {
              # evaluation error does not take the run-time cases (and their replays) down
              {"tag": "c10const", "bin": "c10c", "timeout": 120, "on_build_failure": _const_items_rejected},
              # chunk lengths of 2^32, 2^33, 2^32 + 3 (the array type is never instantiated): direct oracle
-             {"tag": "c10huge", "bin": "c10", "args": ["--huge"], "model": False}],
+             {"tag": "c10huge", "bin": "c10", "args": ["--huge"], "model": False},
+             # caller program compiled separately: the native-array slice views from code generic over `const U`
+             {"tag": "c10call", "bin": "gcall", "no_default_features": True, "args": ["--prop", "C10"], "model": False}],
     "mismatch_is_failing": True,
-    "rule": "exhaustive: every L in 0..=4N+3 for every N in {0,1,2,3,7,8,16,31,32,33} (thorough: + 64,97,255,1024) x {chunks_from_slice, chunks_from_slice_mut} x element types {u8,u32,(),(u8,u16)}, the slice placed at a varying offset inside a larger buffer; slice_from_chunks(_mut) / from_chunks(_mut)+into_chunks(_mut) for every chunk count 0..=5 (thorough 0..=9) x start array 0..=2 x the same N and types; 28 const items evaluating the same calls at compile time (compared with the run-time result); plus seeded random positions/lengths. Observed: pointer offsets and lengths of every returned part, contents read through every view, write-through of the mutable forms (the chunk views, the remainder and the re-flattened view of slice_from_chunks_mut, at run time and inside the const items) read back from the buffer, panic flag. distinct = distinct CASE lines; non-trivial = N > 0 and at least one whole chunk (forms 0,1: L >= N; other forms: count > 0)",
+    "rule": "exhaustive: every L in 0..=4N+3 for every N in {0,1,2,3,7,8,16,31,32,33} (thorough: + 64,97,255,1024) x {chunks_from_slice, chunks_from_slice_mut} x element types {u8,u32,(),(u8,u16)}, the slice placed at a varying offset inside a larger buffer; slice_from_chunks(_mut) / from_chunks(_mut)+into_chunks(_mut) for every chunk count 0..=5 (thorough 0..=9) x start array 0..=2 x the same N and types; 28 const items evaluating the same calls at compile time (compared with the run-time result); plus seeded random positions/lengths. Observed: pointer offsets and lengths of every returned part, contents read through every view, write-through of the mutable forms (the chunk views, the remainder and the re-flattened view of slice_from_chunks_mut, at run time and inside the const items) read back from the buffer, panic flag. Run c10call: a separately compiled caller generic over `const U: usize` (bound `Const<U>: IntoArrayLength` only) takes the four native-array slice views and slice_from_chunks for U in {1,3,8,16}: addresses, counts, write-through. distinct = distinct CASE lines; non-trivial = N > 0 and at least one whole chunk (forms 0,1: L >= N; other forms: count > 0)",
     "nontrivial": lambda case, obs: (lambda c: len(c) == 7 and c[2] > 0 and ((c[4] >= c[2]) if c[0] % 10 < 2 else c[4] > 0))([int(x) for x in case.split()]),
     "manifest": {
         "design_ref": "DESIGN.md section 7, C10",
